@@ -178,3 +178,56 @@ func harnessC16Generate() {
 		verif.Assert(!osAllOK, "failure is reported although every step succeeded")
 	}
 }
+
+// ---- C16: which names are usable package names ------------------------------------------------------
+
+// The keywords and the predeclared identifiers of the Go specification (go1.24, the version of go.mod).
+var goKeywords = []string{"break", "case", "chan", "const", "continue", "default", "defer", "else", "fallthrough", "for", "func", "go", "goto", "if", "import",
+	"interface", "map", "package", "range", "return", "select", "struct", "switch", "type", "var"}
+var goPredeclared = []string{"any", "bool", "byte", "comparable", "complex64", "complex128", "error", "float32", "float64", "int", "int8", "int16", "int32", "int64",
+	"rune", "string", "uint", "uint8", "uint16", "uint32", "uint64", "uintptr", "true", "false", "iota", "nil", "append", "cap", "clear", "close", "complex", "copy",
+	"delete", "imag", "len", "make", "max", "min", "new", "panic", "print", "println", "real", "recover"}
+var usableNames = []string{"pkg", "calc", "x1", "_", "_x", "Var", "anyx", "var1", "int9", "go2", "iff", "x_y", "lexer", "parser", "main", "vars", "forx", "ifs"}
+var malformedNames = []string{"", "1x", "a-b", "a b", "a.b", "x/y", "9", "a+", "é-"}
+
+// stubMatchIdent stands for idRegex.MatchString (the regexp engine is outside the interpreter): the
+// identifier shape `^[\p{L}_][\p{L}\p{Nd}_]*$` restricted to the ASCII names of this harness.
+func stubMatchIdent(re any, s string) bool {
+	if len(s) == 0 {
+		return false
+	}
+	for i := 0; i < len(s); i++ {
+		c := s[i]
+		letter := c == '_' || (c >= 'a' && c <= 'z') || (c >= 'A' && c <= 'Z')
+		digit := c >= '0' && c <= '9'
+		if !(letter || (digit && i > 0)) {
+			return false
+		}
+	}
+	return true
+}
+
+// harnessC16Names: isIDValid accepts a name iff it has the shape of an identifier and is neither a keyword
+// nor a predeclared identifier of Go; Generate creates nothing for a name it does not accept.
+func harnessC16Names() {
+	var all []string
+	all = append(all, goKeywords...)
+	all = append(all, goPredeclared...)
+	nres := len(all)
+	all = append(all, usableNames...)
+	nuse := len(all)
+	all = append(all, malformedNames...)
+	i := verif.Pick("name", len(all))
+	name := all[i]
+	got := isIDValid(name)
+	if i < nres {
+		verif.Reach("reserved")
+		verif.Assert(!got, "a keyword or predeclared identifier of Go is accepted as a package name: "+name)
+	} else if i < nuse {
+		verif.Reach("usable")
+		verif.Assert(got, "a usable package name is rejected: "+name)
+	} else {
+		verif.Reach("malformed")
+		verif.Assert(!got, "a text that is not an identifier is accepted as a package name: "+name)
+	}
+}
